@@ -44,6 +44,26 @@ class Pick(Suite):
             if rng.random() < 0.3:  # duplicates and equal-score rankings
                 D = D + [[list(b) for b in r] for r in rng.sample(D, 1)]
             cases.append({"one": rng.random() < 0.5, "s": pick_scheme(rng), "D": D})
+        # schemes under which creating / breaking a tie costs nothing: different rankings (coarsenings of one order) all score 0 and all
+        # of them must be returned when all are requested
+        for _ in range(60 if tier == "quick" else 600):
+            n = rng.randint(3, 6)
+            order = list(range(n))
+            rng.shuffle(order)
+            D = []
+            for _ in range(rng.randint(2, 5)):
+                r = [[order[0]]]
+                for e in order[1:]:
+                    if rng.random() < 0.45:
+                        r[-1].append(e)
+                    else:
+                        r.append([e])
+                D.append(r)
+            if rng.random() < 0.3:
+                D.append(gen.random_ranking(rng, order, 1.0, 0.6))
+            free_ties = rng.choice([[[0.0, 1.0, 0.0, 0.0, 0.0, 0.0], [0.0, 0.0, 0.0, 0.0, 0.0, 0.0]],
+                                    [[0.0, 2.0, 0.0, 0.0, 1.0, 0.5], [0.0, 0.0, 0.0, 1.0, 1.0, 0.0]]])
+            cases.append({"one": rng.random() < 0.3, "s": free_ties, "D": D})
         # names that contain the separators of the textual form of a ranking: two different rankings can then print alike
         # (a memo or a de-duplication keyed on str(ranking) would confuse them)
         for _ in range(120 if tier == "quick" else 1500):
